@@ -895,8 +895,8 @@ def run(chk: Check):
                   "subscribers", 151 if quick else 211, max_pairs=12000 if quick else 0)
     # the peer's StartPingCheck announcing its oldest unacknowledged packet (truthful or not), answered by the real region
     # handler; duplicates of the announced packet itself and of newer ones must still be suppressed
-    traces += _b1(chk, dict(base, RelPids="{1,2,3}", UnrelPids="{4}", MaxRcv=2, MaxSends=1, MaxUnrel=0, MaxAcks=1, Ticks="{}",
-                            MaxPings=2, Oldest="{0,1,2,3,4}", Depth=6 if quick else 7), "ping", 53, max_pairs=8000 if quick else 0)
+    traces += _b1(chk, dict(base, RelPids="{1,2}", UnrelPids="{}", MaxRcv=3, MaxSends=0, MaxUnrel=0, MaxAcks=0, Ticks="{}",
+                            MaxPings=2 if quick else 3, Oldest="{0,1,2,3}", Depth=7 if quick else 9), "ping", 11)
     # life of the circuit: created-not-yet-alive (as the endpoint makes it) or bare-alive, handshake completes, disconnect
     traces += _b1(chk, dict(base, RelPids="{1}", UnrelPids="{2}", MaxRcv=2, MaxSends=1 if quick else 2, MaxUnrel=1, MaxAcks=1,
                             Ticks="{%d}" % every, StartStates='{"pending", "alive"}', Lifecycle="TRUE", Depth=7 if quick else 8),
